@@ -68,7 +68,9 @@ ZeroDesc(i) == [addr |-> ZeroAddr, len |-> 0, flags |-> 0,
                 next |-> IF i + 1 < N THEN i + 1 ELSE 0]
 DescAt(i) == IF i \in DOMAIN desc THEN desc[i] ELSE ZeroDesc(i)
 RingAt(s) == IF s \in DOMAIN ring THEN ring[s] ELSE 0
-UsedAt(s) == IF s \in DOMAIN usedRing THEN usedRing[s] ELSE [id |-> 0, len |-> 0]
+\* (a slot the device never wrote reads as zero; lengths are encoded like addresses - only
+\* compared for equality - so the zero length is ZeroAddr)
+UsedAt(s) == IF s \in DOMAIN usedRing THEN usedRing[s] ELSE [id |-> 0, len |-> ZeroAddr]
 
 Range(f) == { f[x] : x \in DOMAIN f }
 
@@ -253,8 +255,10 @@ PublishIdx(v) ==
   /\ LET h == RingAt(availIdx % N) IN
        op' = [op EXCEPT !.pub = TRUE, !.head = h, !.descs = Parse(h).descs]
   /\ idxMem' = v /\ availIdx' = v
+  \* a new incarnation of this head: what the device wrote for an earlier one is history
+  /\ LET h == RingAt(availIdx % N) IN wrote' = [t \in DOMAIN wrote \ {h} |-> wrote[t]]
   /\ UNCHANGED <<cfg, lastUsed, lastChecked, held, desc, ring, availFlags, usedEvent,
-                 vmemVars, shared, devVars>>
+                 vmemVars, shared, devNext, devHeld>>
 
 AddRetOk(token) ==
   /\ op.kind = "add" /\ op.pub
@@ -274,6 +278,9 @@ AddRetErr(e) ==
 
 -----------------------------------------------------------------------------
 (*                            pop_used                                     *)
+\* C07: the scenario runs against a misbehaving device (set in the queue's configuration at Reset)
+Adv == "adv" \in DOMAIN cfg /\ cfg.adv
+
 PopOutcome(token) ==
   IF lastUsed = usedIdx THEN "NotReady"
   ELSE IF UsedAt(lastUsed % N).id # token THEN "WrongToken" ELSE "Ok"
@@ -282,9 +289,15 @@ PopOutcome(token) ==
 PopCall(token, outdg) ==
   /\ op = NoOp
   /\ LET o == PopOutcome(token) IN
-     IF o = "Ok"
-     THEN /\ token \in DOMAIN held          \* caller discipline: only tokens it holds
-          /\ outdg = held[token].outdg      \* C04: nothing appears before the completion is consumed
+     IF o = "Ok" /\ token \notin DOMAIN held
+     THEN \* a misbehaving device named a chain the driver does not have outstanding and the driver
+          \* passed it on: nothing may be recycled, unshared or returned - the call is refused
+          \* (WrongToken) or ends in a clean panic (C07)
+          /\ Adv
+          /\ op' = [kind |-> "popwild", err |-> "WrongToken"]
+          /\ UNCHANGED held
+     ELSE IF o = "Ok"
+     THEN /\ outdg = held[token].outdg      \* C04: nothing appears before the completion is consumed
           /\ op' = [kind |-> "pop", token |-> token, len |-> UsedAt(lastUsed % N).len,
                     pas |-> held[token].pas, descs |-> held[token].descs,
                     wd |-> IF token \in DOMAIN wrote THEN wrote[token] ELSE outdg]
@@ -310,7 +323,7 @@ StoreUsedEvent(v) ==
 PopRetOk(len, outdg) ==
   /\ op.kind = "pop"
   /\ len = op.len
-  /\ outdg = op.wd                                  \* C04: exactly the bytes the device wrote
+  /\ Adv \/ outdg = op.wd                           \* C04: exactly the bytes the device wrote
   /\ op.pas \cap DOMAIN shared = {}                 \* everything of this chain unshared
   /\ cfg.eventIdx => usedEvent = Inc(lastUsed)      \* C05: re-armed for the next completion
   /\ lastUsed' = Inc(lastUsed)
@@ -318,8 +331,14 @@ PopRetOk(len, outdg) ==
   /\ UNCHANGED <<cfg, availIdx, lastChecked, held, dmemVars, vmemVars, shared, devVars>>
 
 PopRetErr(e) ==
-  /\ op.kind = "popfail" /\ e = op.err
+  /\ op.kind \in {"popfail", "popwild"} /\ e = op.err
   /\ op' = NoOp
+  /\ UNCHANGED <<cfg, availIdx, lastUsed, lastChecked, held, dmemVars, vmemVars, shared, devVars>>
+
+\* C07: the only acceptable continuation of a pop the driver could not have been entitled to
+PopPanic ==
+  /\ op.kind = "popwild"
+  /\ op' = [kind |-> "dead"]
   /\ UNCHANGED <<cfg, availIdx, lastUsed, lastChecked, held, dmemVars, vmemVars, shared, devVars>>
 
 -----------------------------------------------------------------------------
@@ -374,6 +393,15 @@ SetDevNotifyRet ==
 (*                 the device (environment)                                *)
 \* the device may look at queue memory in *every* state; taking an entry is its
 \* only step that depends on what it sees
+\* a misbehaving device may also "take" entries whose chains it already reported as used
+DevTakeAny(h) ==
+  /\ Adv
+  /\ devNext # idxMem
+  /\ h = RingAt(devNext % N)
+  /\ devHeld' = devHeld \cup {h}
+  /\ devNext' = Inc(devNext)
+  /\ UNCHANGED <<cfg, drvVars, dmemVars, vmemVars, shared, wrote>>
+
 DevTake(h) ==
   /\ devNext # idxMem
   /\ h = RingAt(devNext % N)
@@ -415,6 +443,7 @@ DescribesPending(h) ==
 
 \* entries the device has not taken yet
 C02_PublishedComplete ==
+  ~Adv =>
   \A k \in Window(devNext, idxMem) :
      LET h == RingAt(k % N) IN Describes(h) \/ DescribesPending(h)
 
